@@ -719,21 +719,86 @@ def materialize(casedir, sc, repo_name="repo", keep_local=False):
                 os.unlink(e.path)
         _SEQ[0] += 1
         os.symlink("local", os.path.join(casedir, "l%d" % _SEQ[0]))
-    link = os.path.join(casedir, "u%d%s" % (_SEQ[0], "" if repo_name == "repo" else "b"))
+    api = sc.get("api") or {}
+    uform = api.get("url", "plain")
+    lname = "u%d%s%s" % (_SEQ[0], "" if repo_name == "repo" else "b", " sp+\u00e9~" if uform in ("pct", "rawspace") else "")
+    link = os.path.join(casedir, lname)
     if not os.path.islink(link):
         os.symlink(repo_name, link)
     local = os.path.join(casedir, "l%d" % _SEQ[0], NAME)
-    return "file://" + os.path.join(link, NAME), local, tmpd
+    return url_of(link, uform), local, tmpd
+
+
+def url_of(link, form):
+    """file:// URL of <link>/Packages in one of the equivalent spellings"""
+    from urllib.parse import quote
+    path = os.path.join(link, NAME)
+    if form == "localhost":
+        return "file://localhost" + path
+    if form == "pct":               # directory name with a space, '+', a non-ASCII letter: percent-encoded
+        return "file://" + quote(path)
+    if form == "rawspace":          # the same directory name, only the non-ASCII letter encoded
+        return "file://" + quote(path, safe="/ +~")
+    if form == "dotseg":
+        return "file://" + link + "/./" + NAME
+    if form == "dblslash":
+        return "file://" + link + "//" + NAME
+    return "file://" + path
 
 
 _SEQ = [0]
 
 
-def _call(remote, local):
-    """the call under test; every exception is an observation"""
-    from debian.debian_support import update_file
+ENTRY_FNS = {"update_file": ("update_file", "updateFile"), "download_file": ("download_file", "downloadFile"),
+             "replace_file": ("replace_file", "replaceFile")}
+VERBOSE_FORMS = ("default", "kw-false", "kw-true", "pos-true", "kw-none")
+URL_FORMS = ("plain", "localhost", "pct", "dotseg", "dblslash", "rawspace")
+LOCAL_FORMS = ("abs", "rel", "rel-dot")
+
+
+def api_variant(entry, k):
+    """the k-th way of calling the entry point (rotating over public name / deprecated alias, the
+    spellings of verbose, of the URL and of the local path, positional / keyword arguments)"""
+    fns = ENTRY_FNS[entry]
+    return {"entry": entry, "fn": fns[k % 2], "verbose": VERBOSE_FORMS[(k // 2) % 5], "url": URL_FORMS[(k // 3) % 6],
+            "local": LOCAL_FORMS[(k // 5) % 3], "kw": (k // 7) % 2 == 1}
+
+
+PLAIN_API = {"entry": "update_file", "fn": "update_file", "verbose": "default", "url": "plain", "local": "abs", "kw": False}
+
+
+def _call(remote, local, api=None, lines=None):
+    """the call under test through the given public entry point; every exception is an observation.
+    stdout (verbose=True prints) is swallowed, DeprecationWarnings of the camelCase aliases ignored"""
+    import contextlib
+    import warnings
+    from debian import debian_support as ds
+    api = api or PLAIN_API
+    entry = api.get("entry", "update_file")
+    cwd = os.getcwd()
     try:
-        ret = update_file(remote, local)
+        with warnings.catch_warnings(), contextlib.redirect_stdout(io.StringIO()):
+            warnings.simplefilter("ignore")
+            fn = getattr(ds, api["fn"])
+            if api.get("local", "abs") != "abs":        # a relative local path
+                os.chdir(os.path.dirname(os.path.dirname(local)))
+                local = os.path.join(os.path.basename(os.path.dirname(local)), os.path.basename(local))
+                if api["local"] == "rel-dot":
+                    local = "./" + local
+            if entry == "replace_file":
+                ret = fn(lines=list(lines), local=local, encoding="UTF-8") if api.get("kw") else fn(list(lines), local)
+                if ret is None:
+                    ret = list(lines)               # replace_file returns nothing: the lines it was given
+            elif entry == "download_file":
+                ret = fn(remote=remote, local=local) if api.get("kw") else fn(remote, local)
+            else:
+                v = api.get("verbose", "default")
+                if v == "default":
+                    ret = fn(remote=remote, local=local) if api.get("kw") else fn(remote, local)
+                elif v == "pos-true":
+                    ret = fn(remote, local, True)
+                else:
+                    ret = fn(remote, local, verbose={"kw-false": False, "kw-true": True, "kw-none": None}[v])
         try:
             ret = list(ret)
         except TypeError:
@@ -743,9 +808,11 @@ def _call(remote, local):
         raise
     except BaseException as e:      # noqa: B036 -- an observation, whatever it is
         return {"outcome": "raised", "exc": type(e).__name__, "msg": str(e)[:200], "ret": None}
+    finally:
+        os.chdir(cwd)
 
 
-def _call_rlimited(remote, local, limit):
+def _call_rlimited(remote, local, limit, api=None, lines=None):
     """implementation-agnostic write fault: the call runs in a forked child whose RLIMIT_FSIZE is
     `limit` bytes with SIGXFSZ ignored (writes beyond it fail with EFBIG); the child reports through
     a pipe (a pipe is not subject to the limit)"""
@@ -761,7 +828,7 @@ def _call_rlimited(remote, local, limit):
             signal.signal(signal.SIGXFSZ, signal.SIG_IGN)
             resource.setrlimit(resource.RLIMIT_FSIZE, (limit, hard))
             try:
-                res = _call(remote, local)
+                res = _call(remote, local, api, lines)
             finally:
                 resource.setrlimit(resource.RLIMIT_FSIZE, (soft, hard))
             data = pickle.dumps(res)
@@ -791,18 +858,20 @@ def execute(casedir, sc, record=True, repo_name="repo", keep_local=False):
     import tempfile
     remote, local, tmpd = materialize(casedir, sc, repo_name, keep_local)
     inj = sc["inject"]
+    api = sc.get("api") or PLAIN_API
+    lines = sc["texts"][str(sc["in"]["hist"][-1])].splitlines(True)     # what replace_file is given
     old_tmp = tempfile.tempdir
     tempfile.tempdir = tmpd
     rec = None
     try:
         if inj.get("mode") == "rlimit":
-            res = _call_rlimited(remote, local, inj["limit"])
+            res = _call_rlimited(remote, local, inj["limit"], api, lines)
         elif record or inj.get("mode") == "wrap":
             rec = Recorder(local, remote, sc["patch_names"], inj, sc.get("wmap"))
             with rec:
-                res = _call(remote, local)
+                res = _call(remote, local, api, lines)
         else:
-            res = _call(remote, local)
+            res = _call(remote, local, api, lines)
     finally:
         tempfile.tempdir = old_tmp
     obs = dict(res)
@@ -818,6 +887,8 @@ def execute(casedir, sc, record=True, repo_name="repo", keep_local=False):
     obs["fired"] = rec.fired if rec else (inj.get("mode") == "rlimit")
     obs["saw_fs"] = bool(rec and rec.saw_fs)
     obs["saw_net"] = bool(rec and rec.saw_net)
+    obs["remote"] = remote
+    obs["local_path"] = local
     return obs
 
 
@@ -914,19 +985,19 @@ def judge(sc, exp, obs, proj):
             return "drift", "fault %s fired although the specification never reaches it (the code writes where the model does not); error raised, local file intact" % fdesc
     if exp["pc"] == "returned":
         if proj["pc"] != "returned":
-            return "violation", ("update_file raised %s (%s) where the specification converges [fault %s; model steps: %s]"
+            return "violation", ("the call raised %s (%s) where the specification converges [fault %s; model steps: %s]"
                                  % (obs["exc"], obs.get("msg", ""), fdesc, steps))
         if proj["local"] != exp["local"]:
-            return "violation", ("update_file returned but the local file is %s, the published current content is %s [fault %s; model steps: %s]"
+            return "violation", ("the call returned but the local file is %s, the published current content is %s [fault %s; model steps: %s]"
                                  % (name_of(sc, proj["local"]), name_of(sc, exp["local"]), fdesc, steps))
         if proj["ret"] != exp["ret"]:
-            return "violation", ("update_file returned lines that are %s, expected the lines of %s [fault %s; model steps: %s]"
+            return "violation", ("the call returned lines that are %s, expected the lines of %s [fault %s; model steps: %s]"
                                  % (name_of(sc, proj["ret"]), name_of(sc, exp["ret"]), fdesc, steps))
         if proj["dotNew"] != "absent":
             return "drift", "local + '.new' left behind after a successful update"
     else:
         if proj["pc"] != "raised":
-            return "violation", ("update_file returned (local file now %s) although the specification raises: fault %s [model steps: %s]"
+            return "violation", ("the call returned (local file now %s) although the specification raises: fault %s [model steps: %s]"
                                  % (name_of(sc, proj["local"]), fdesc, steps))
         if not proj["local_same_bytes"]:
             return "violation", ("an error was raised (%s) but the local file changed: it was %s and is now %s [fault %s; model steps: %s]"
@@ -963,7 +1034,7 @@ def split_case(case):
     return ([prev] if prev.get("pc", "none") != "none" else []) + [case]
 
 
-def build_multi(rng, ins, canonical=False, maxlen=6, use_diff=None, inject_modes=None, stress=None):
+def build_multi(rng, ins, canonical=False, maxlen=6, use_diff=None, inject_modes=None, stress=None, apis=None):
     """concretize one or two consecutive calls: one table of texts for all content ids, the local file
     of the first call, one repository state per call.  A later call under rep = same / mirror
     re-publishes the earlier patches unchanged (a published patch never changes)."""
@@ -988,6 +1059,10 @@ def build_multi(rng, ins, canonical=False, maxlen=6, use_diff=None, inject_modes
         sc = build_scenario(rng, inp, canonical=canonical, maxlen=maxlen, use_diff=use_diff, inject_mode=mode,
                             texts=texts, foreign=foreign, style=style, stress=stress,
                             base=base if inp.get("rep") in ("same", "mirror") else None)
+        # the way this call is made: public name or deprecated alias, spelling of verbose / URL /
+        # local path -- rotating, mixed within one behaviour; the plainest form for canonical replays
+        entry = inp.get("entry", "update_file")
+        sc["api"] = (apis[r] if apis else api_variant(entry, 0 if canonical else rng.randrange(1 << 20)))
         runs.append(sc)
         base = sc
     return {"runs": runs}
@@ -1014,9 +1089,17 @@ def run_multi(workdir, msc, fix_input=False):
     return out
 
 
+def how_called(view):
+    a = view.get("api") or PLAIN_API
+    return a["fn"] + ("" if a.get("entry") != "update_file" or a["verbose"] == "default" else "[verbose %s]" % a["verbose"]) \
+        + ("" if a["url"] == "plain" else "[url %s]" % a["url"]) + ("" if a["local"] == "abs" else "[local %s]" % a["local"]) \
+        + ("[keyword args]" if a.get("kw") else "")
+
+
 def _summary(view, obs, proj):
     i = view["in"]
-    return "%slocal0=%s fault=%s/%d hist=%r h0=%d nw=%d flav=%s inject=%s -> %s%s local=%s" % (
+    how = how_called(view)
+    return how + " %slocal0=%s fault=%s/%d hist=%r h0=%d nw=%d flav=%s inject=%s -> %s%s local=%s" % (
         ("[%s url%d] " % (i["rep"], i.get("url", 1))) if i.get("rep", "first") != "first" else "",
         name_of(view, i["local0"]), i["fault"]["k"], i["fault"]["i"], i["hist"], i["h0"], i["nw"], "+".join(i["flav"]),
         view["inject"].get("mode"), proj["pc"], ("(" + obs["exc"] + ")") if proj["pc"] == "raised" else "",
@@ -1033,7 +1116,9 @@ def judge_multi(msc, exps, res):
         if obs["exc"] != "none":
             excs.append(obs["exc"])
         if st != "ok" and status == "ok":
-            status, msg = st, (("call %d of %d: " % (r + 1, len(exps))) if len(exps) > 1 else "") + m
+            via = how_called(view)
+            status, msg = st, (("call %d of %d: " % (r + 1, len(exps))) if len(exps) > 1 else "") \
+                + ("" if via == "update_file" else "called as %s: " % via) + m
         if st == "violation" or proj["local"] != exp["local"]:
             break
     return {"status": status, "msg": msg, "scenario": msc, "summary": "  ;  THEN  ".join(summaries), "excs": excs,
@@ -1067,6 +1152,32 @@ def stress_profile(rng, heavy=False):
             "rlimit_at": rng.choice(BYTE_OFFSETS)}
 
 
+def dgl_check(view, obs, k):
+    """download_gunzip_lines / downloadGunzipLines on the repository's full file: the lines of the
+    current content (what the specification's FullDownload delivers)"""
+    import tempfile
+    import warnings
+    from debian import debian_support as ds
+    name = ("download_gunzip_lines", "downloadGunzipLines")[k % 2]
+    old_tmp = tempfile.tempdir
+    tempfile.tempdir = os.path.join(os.path.dirname(os.path.dirname(os.path.abspath(obs["local_path"]))), "tmp")
+    try:
+        with warnings.catch_warnings():
+            warnings.simplefilter("ignore")
+            got = getattr(ds, name)(obs["remote"] + ".gz")
+    except KeyboardInterrupt:
+        raise
+    except BaseException as e:      # noqa: B036
+        return "%s(%r) raised %s (%s)" % (name, obs["remote"] + ".gz", type(e).__name__, str(e)[:150])
+    finally:
+        tempfile.tempdir = old_tmp
+    cur = view["in"]["hist"][-1]
+    if pid_lines(view, got) != cur:
+        return "%s(%r) returned lines that are %s, the published file is %s" % (
+            name, obs["remote"] + ".gz", name_of(view, pid_lines(view, got)), name_of(view, cur))
+    return None
+
+
 def run_case(workdir, rng, case, variant, opts):
     exps = split_case(case)
     stress = None
@@ -1077,7 +1188,16 @@ def run_case(workdir, rng, case, variant, opts):
     msc = build_multi(rng, [e["in"] for e in exps], canonical=(variant == "canonical"), maxlen=opts.get("maxlen", 6),
                       use_diff=workdir if (stress or (opts.get("diff_e") and variant != "canonical")) else None,
                       inject_modes=["wrap"] * (len(exps) - 1) + [last], stress=stress)
-    return judge_multi(msc, exps, run_multi(workdir, msc))
+    res = run_multi(workdir, msc)
+    out = judge_multi(msc, exps, res)
+    out["apis"] = [sc["api"] for sc in msc["runs"]]
+    k = rng.randrange(1 << 20)
+    if out["status"] == "ok" and variant != "canonical" and k % 6 == 0 and len(res) == len(exps):
+        m = dgl_check(res[-1][0], res[-1][1], k // 6)
+        out["dgl"] = True
+        if m:
+            out["status"], out["msg"] = "violation", m
+    return out
 
 
 def replay_chunk(args):
@@ -1128,7 +1248,8 @@ def random_input(rng, flavour_sets, maxv=8, maxlines=30):
     h0 = 0 if rng.random() < 0.6 else rng.randint(0, n)
     local0 = rng.choice([ABSENT, FOREIGN, FOREIGN] + hist + hist)
     return {"hist": hist, "h0": h0, "local0": local0, "fault": random_fault(rng, n, nw), "nw": nw,
-            "flav": list(rng.choice(flavour_sets)), "url": 1, "rep": "first"}
+            "flav": list(rng.choice(flavour_sets)), "url": 1, "rep": "first",
+            "entry": rng.choice(["update_file"] * 6 + ["download_file", "replace_file"])}
 
 
 def random_next_input(rng, prev, maxlines=30):
@@ -1145,7 +1266,8 @@ def random_next_input(rng, prev, maxlines=30):
     h0 = 0 if rng.random() < 0.6 else rng.randint(0, n)
     return {"hist": hist2, "h0": h0, "local0": ABSENT,      # fixed when the previous call has ended
             "fault": random_fault(rng, n, nw) if rng.random() < 0.5 else {"k": "none", "i": 0}, "nw": nw,
-            "flav": prev["flav"], "url": prev["url"] if kind == "same" else 3 - prev["url"], "rep": kind}
+            "flav": prev["flav"], "url": prev["url"] if kind == "same" else 3 - prev["url"], "rep": kind,
+            "entry": rng.choice(["update_file"] * 6 + ["download_file", "replace_file"])}
 
 
 def record_one(workdir, seed, idx, opts):
@@ -1188,12 +1310,13 @@ def _trace_entry(view, obs, proj):
                     "dotNew": proj["dotNew"] if proj["pc"] == "raised" else "absent", "exc": proj["exc"]},
             "new_after_success": proj["pc"] == "returned" and proj["dotNew"] != "absent",
             "tmp_left": len(obs["tmp_left"]),
-            "fired": obs["fired"], "same": proj["local_same_bytes"], "note": note, "inject": inj.get("mode")}
+            "fired": obs["fired"], "same": proj["local_same_bytes"], "note": note, "inject": inj.get("mode"),
+            "api": view.get("api") or PLAIN_API}
 
 
-def _inp(hist, local0, fault=("none", 0), nw=2, h0=0, flav=("SHA1", "SHA256"), url=1, rep="first"):
+def _inp(hist, local0, fault=("none", 0), nw=2, h0=0, flav=("SHA1", "SHA256"), url=1, rep="first", entry="update_file"):
     return {"hist": list(hist), "h0": h0, "local0": local0, "fault": {"k": fault[0], "i": fault[1]}, "nw": nw,
-            "flav": list(flav), "url": url, "rep": rep}
+            "flav": list(flav), "url": url, "rep": rep, "entry": entry}
 
 
 BIG_MENU = ["huge-full-download", "chain-199", "chain-50-corrupt", "one-line-1MiB", "64KiB-rlimit-8192",
@@ -1225,7 +1348,7 @@ def big_case(rng, which):
         return ([_inp([1, 2, 3], 1, fault=("writeFails", 2), nw=2)],
                 {"prof": {"n": 40, "len": 65536}, "name_len": 128}, "wrap")
     if which == "two-calls-1MiB":           # full download of 1 MiB, then a patch on it in the same process
-        return ([_inp([1], ABSENT, nw=2), _inp([1, 2], ABSENT, nw=2, rep="same")],
+        return ([_inp([1], ABSENT, nw=2, entry="download_file"), _inp([1, 2], ABSENT, nw=2, rep="same")],
                 {"prof": {"n": 1024, "total": (1 << 20) + pm}}, "wrap")
     if which == "chain-11-badlast-longnames":
         return ([_inp(range(1, 13), 1, fault=("badLastPatch", 11), nw=2)],
@@ -1234,7 +1357,7 @@ def big_case(rng, which):
         return ([_inp([1, 2], 1, fault=("writeFails", 2), nw=2, flav=("SHA1",))],
                 {"prof": {"n": 300, "len": 32}, "rlimit_at": 4096 + rng.choice([-1, 0, 1])}, "rlimit")
     if which == "8KiB-rename":
-        return ([_inp([1, 2, 2, 3], 1, fault=("renameFails", 0), nw=2)],
+        return ([_inp([1, 2, 2, 3], 1, fault=("renameFails", 0), nw=2, entry="replace_file")],
                 {"prof": {"n": 100, "total": 8192 + pm}, "name_len": 33}, "wrap")
     if which == "uptodate-200":             # index that lists the last 100 of 199 patches; local is current
         return ([_inp(range(1, 201), 200, nw=2, h0=99)], {"prof": {"n": 2, "len": "short"}, "digits": 11}, "wrap")
